@@ -14,5 +14,6 @@ def check(run, replay=None):
                 "Ok/Err, random gas/events/message responses, data absent / good / malformed at envelope and JSON level, payload good / "
                 "malformed; non-trivial = distinct (program, reply)")
     return replyprops.check(run, "C07", "Props/C07", THEOREMS, replay,
-                            translated=("Props/C07T", ["c07_translated_declared_handlers_run", "c07_translated_pass_through",
-                                                       "c07_translated_always_handler"]))
+                            translated=[("Props/C07T", ["c07_translated_declared_handlers_run", "c07_translated_pass_through",
+                                                       "c07_translated_always_handler"]),
+                                        ("Props/C07R", ["c07_translated_reply_entry_of_one_handler", "c07_translated_payload_of_a_handler"])])
